@@ -1,1 +1,8 @@
-pub fn hello() {}
+//! Shared helpers for the conformance harness binaries.
+//!
+//! Trusted base (DESIGN.md section 2): text <-> code points, bigint <-> base-4096
+//! limbs, JSON I/O, a tiny PRNG, process control. Everything else is decided by the
+//! TLA+ specification.
+
+pub mod rng;
+pub mod conv;
